@@ -87,8 +87,8 @@ package gera
 //@   ghostvar pd map[K]bool = empty
 //@   ghostvar pv map[K]V = empty
 //@   ghostvar ofp *V = nil
-//@   on call mergo.Merge : pd = dom(flattenedParent) ; pv = vals(flattenedParent) ; ofp = flattenedParent
-//@   on aftercall mergo.Merge : havoc local(flattenedParent) ; assume (ofp != nil ==> flattenedParent == ofp) && (ofp == nil ==> fresh(flattenedParent) && flattenedParent != thisMapCopy) ; havoc entries(flattenedParent) ; assume result == nil ==> flattenedParent != nil && (forall k K :: (k in flattenedParent) == (pd[k] || (k in thisMapCopy))) && (forall k K :: (k in thisMapCopy) ==> flattenedParent[k] == thisMapCopy[k]) && (forall k K :: pd[k] && !(k in thisMapCopy) ==> flattenedParent[k] == pv[k])
+//@   on call mergo.Merge : pd = dom(deref(arg0u)) ; pv = vals(deref(arg0u)) ; ofp = deref(arg0u)
+//@   on aftercall mergo.Merge : havoc cell(arg0u) ; assume (ofp != nil ==> deref(arg0u) == ofp) && (ofp == nil ==> fresh(deref(arg0u)) && deref(arg0u) != arg1u) ; havoc entries(deref(arg0u)) ; assume result == nil ==> deref(arg0u) != nil && (forall k K :: (k in deref(arg0u)) == (pd[k] || (k in arg1u))) && (forall k K :: (k in arg1u) ==> deref(arg0u)[k] == arg1u[k]) && (forall k K :: pd[k] && !(k in arg1u) ==> deref(arg0u)[k] == pv[k])
 //@   loop 1 invariant fresh(thisMapCopy) && forall k K :: #visited[k] ==> (k in thisMapCopy) && thisMapCopy[k] == w.theMap[k]
 //@   loop 1 invariant forall k K :: (k in thisMapCopy) ==> (k in w.theMap) && thisMapCopy[k] == w.theMap[k]
 //@   ensures r != nil ==> fresh(r)
